@@ -308,7 +308,9 @@ def _band_limited_case(method, degs, with_zero, rotate, seed=0):
     rng = np.random.default_rng(seed)
     rg = BeckeRTransform(0.0 if False else 1e-3, 1.3).transform_1d_grid(GaussLegendre(len(degs)))
     pts, w = rg.points.copy(), rg.weights.copy()
-    if with_zero:
+    if with_zero == "tiny":
+        pts[0] = 1e-9          # a node that is tiny but not at the origin: its shell is rotated like every other one
+    elif with_zero:
         pts[0]=0.0
     rg = OneDGrid(pts, w, (0,np.inf))
     c = np.array([0.3,-0.2,0.5])
@@ -346,7 +348,7 @@ def _band_limited_case(method, degs, with_zero, rotate, seed=0):
     return out
 
 
-BAND_CASES = (("lebedev", [5, 7, 9, 7, 5, 5], False, 0), ("lebedev", [7] * 6, True, 3), ("maxdet", [6, 6, 8, 10, 8, 6], False, 5), ("spherical", [5, 7, 7, 9, 5, 5], True, 0), ("ahrens_beylkin", [14, 14, 14, 14], False, 2))
+BAND_CASES = (("lebedev", [5, 7, 9, 7, 5, 5], False, 0), ("lebedev", [7] * 6, True, 3), ("maxdet", [6, 6, 8, 10, 8, 6], False, 5), ("spherical", [5, 7, 7, 9, 5, 5], True, 0), ("ahrens_beylkin", [14, 14, 14, 14], False, 2), ("lebedev", [9, 9, 9, 9, 9], "tiny", 11), ("maxdet", [4, 6, 10, 10, 6, 4], True, 0))
 
 
 def band_limited_oracle():
@@ -359,7 +361,7 @@ def band_limited_oracle():
             bad[str(cfg)] = f"{type(ex).__name__}: {str(ex)[:150]}"
             continue
         for k, v in out.items():
-            if not v <= tol.get(k, 1e-9):
+            if not v <= (tol.get(k, 1e-9) if cfg[2] != "tiny" else max(tol.get(k, 1e-9), 1e-7)):      # a node spacing of 1e-9 costs the spline solve a few digits
                 bad[f"{cfg}: {k}"] = float(v)
     return bad
 
@@ -412,7 +414,7 @@ def job_band_limited(ctx: Ctx):
     ctx.encoded(ag.AtomGrid.integrate_angular_coordinates, ag.AtomGrid.radial_component_splines, ag.AtomGrid.interpolate, ag.AtomGrid.spherical_average)
     with unpatched(an, ag, bg, ut, mg):
         bad = band_limited_oracle()
-    (ctx.ok if not bad else ctx.fail)("float code: band-limited functions are recovered exactly (5 grids: 4 methods, odd/even/mixed degrees, rotation, r = 0 node)", detail=str(bad)[:300], key="band-limited:real",
+    (ctx.ok if not bad else ctx.fail)("float code: band-limited functions are recovered exactly (7 grids: 4 methods, odd/even/mixed degrees, rotation, r = 0 node, tiny non-zero node with rotation)", detail=str(bad)[:300], key="band-limited:real",
                                       how="ground enumeration (not a solver obligation)", replay=(lambda m: (True, bad)), **({} if not bad else dict(model={})))
     ctx.twins_sat += 1
 
